@@ -60,16 +60,23 @@ def merged_ref(tracks):
     return out
 
 
+_BPS_CACHE = {}
+
+
 def integral_ref(merged, tpb, T):
     """Exact seconds of the tempo map from tick 0 to tick T: breakpoints from the set_tempo
     events, the last one at a tick wins; a tempo applies to the ticks after its event."""
-    bps = []
-    for (_d, tempo, _n, t) in merged:
-        if tempo is not None:
-            if bps and bps[-1][0] == t:
-                bps[-1] = (t, tempo)
-            else:
-                bps.append((t, tempo))
+    key = id(merged)
+    if _BPS_CACHE.get('key') != key or _BPS_CACHE.get('len') != len(merged):
+        bps = []
+        for (_d, tempo, _n, t) in merged:
+            if tempo is not None:
+                if bps and bps[-1][0] == t:
+                    bps[-1] = (t, tempo)
+                else:
+                    bps.append((t, tempo))
+        _BPS_CACHE.update({'key': key, 'len': len(merged), 'bps': bps, 'keep': merged})
+    bps = _BPS_CACHE['bps']
     total = Fraction(0)
     cur_t, cur_tempo = 0, 500000
     for (t, tempo) in bps:
@@ -155,9 +162,10 @@ def impl_case(case):
         # observations may overlap: length read inside a loop over the file, two iterators of one file side by side
         try:
             nested = []
-            for m in mid:
+            for k_, m in enumerate(mid):
                 nested.append(m.time)
-                _ = mid.length
+                if len(out['iter']) <= 300 or k_ % 997 == 0:      # every round for ordinary files, now and then for very long ones
+                    _ = mid.length
             it1, it2 = iter(mid), None
             a, b = [], []
             for k in range(2 * len(out['iter']) + 2):
@@ -287,6 +295,16 @@ def gen(ck):
                   rng.choice([0, 0, rng.randint(0, 10 ** 9)])) for _ in range(nmsg + 1)]
         cases.append({'type': ty, 'tpb': tpb, 'tracks': tracks, 'start': rng.choice([0, 12345678, 10 ** 13]),
                       'sched': sched, 'meta': rng.random() < 0.5, 'loaded': rng.random() < 0.4})
+    # long pieces (no count of events is special): several thousand events, the consumer stalling shortly before event
+    # 1024 / 4096 / 8192 / 16384 (quick: 4096 only), and once early on
+    for total, stalls in ((4200, [100, 4088, 4090]), (4300, [4094])) if ck.tier == 'quick' else \
+            ((1100, [1020]), (4200, [100, 4088, 4090]), (4300, [4094]), (8300, [8188]), (16500, [16380, 16383])):
+        tr = [(rng.choice([1, 2, 3, 5]), None, (i * 37) % 16384) for i in range(total)]
+        tr[total // 3] = (4, 400000, 0)
+        sched = [(0, 0)] * (total + 2)
+        for k in stalls:
+            sched[k] = (4 * 10 ** 8, 0)
+        cases.append({'type': 1, 'tpb': 480, 'tracks': [tr], 'start': 0, 'sched': sched, 'meta': rng.random() < 0.5, 'loaded': False})
     return cases
 
 
